@@ -295,9 +295,10 @@ func TestC20Range(t *testing.T) {
 			r.Sample(rangeCase{Min: min, Max: max, Answer: n - 1, Network: "all 4", Net: "simnet+stub"})
 		}
 	}
-	// ---- thorough: ALL pairs 1 <= Min <= Max <= 65535, answers {0, n-1}, udp4 and tcp4,
-	// recording stub instead of a socket layer (measured: simnet ~1.3 us/alloc would be fine
-	// too, the stub keeps the 8.6e9 allocations of the sweep under the time budget).
+	// ---- thorough: ALL pairs 1 <= Min <= Max <= 65535 (2^31 - 2^15 pairs), answers {0, n-1},
+	// udp4 and tcp4 = 8.59e9 allocations. They go through the recording stub, not a socket
+	// layer: measured 0.4 us per allocation with the stub (about 1 core hour in total) against
+	// 1.5-2 us through simnet. The quick pairs above run through both and agree.
 	if rep.Thorough() && done {
 		eu, et := newRangeEnv("udp", "4", true), newRangeEnv("tcp", "4", true)
 		_ = eu.g.Validate()
